@@ -29,6 +29,7 @@ struct h4v_ghost_const { /* never written by stubs or code */
     int32    k;          /* ghost position in the uncompressed stream */
     unsigned exp;        /* write side: the byte of the input stream at g_k */
     uint8   *disk;       /* ghost byte store ("disk"), NULL: none */
+    uint8   *rlebuf;     /* the RLE buffer of the harness' compinfo_t */
     uint8   *out;        /* the caller's destination buffer (decode proof) */
     uint8   *watch;      /* address of the caller's byte that receives stream position g_k (or NULL) */
     int32    disk_cap;
@@ -75,6 +76,7 @@ struct h4v_ghost {
 #define g_disk       GC.disk
 #define g_watch      GC.watch
 #define g_out        GC.out
+#define g_rlebuf     GC.rlebuf
 #define g_disk_cap   GC.disk_cap
 #define g_disk_n     G.disk_n
 #define g_dp         G.dp
@@ -172,6 +174,42 @@ memset(void *d, int c, size_t n)
 #define H4V_GHOST_COPY 1
 #endif
 
+/* ---- bounded harnesses (-DRLE_LOOP_COPY): memcpy/memset as plain byte loops (exact semantics
+   for non-overlapping ranges; unwound to the harness bound) instead of cbmc's array models, whose
+   symbolic-length form needs a fresh variable-length object per call ---- */
+#if defined(H4V_CBMC) && defined(RLE_LOOP_COPY)
+/* The only memcpy of crle.c is the decoder's copy out of its RLE buffer (asserted here).  The
+   source pointer &buffer[buf_pos] has a symbolic offset into the coder state; it is re-based on
+   the typed RLE buffer of the harness' object: the same bytes, but an array access for cbmc
+   instead of a byte extraction from the whole 6 KB object per byte copied. */
+void *
+memcpy(void *d, const void *s, size_t n)
+{
+    __CPROVER_assert(g_rlebuf != NULL && __CPROVER_same_object(s, g_rlebuf) && __CPROVER_r_ok(s, n),
+                     "H4V: memcpy source is a readable range of the RLE buffer");
+    size_t o = __CPROVER_POINTER_OFFSET(s) - __CPROVER_POINTER_OFFSET(g_rlebuf);
+    __CPROVER_assert(o <= 128 && n <= 128 - o, "H4V: memcpy source inside the RLE buffer");
+    for (size_t i = 0; i < n; i++)
+        ((uint8 *)d)[i] = g_rlebuf[o + i];
+    return d;
+}
+void *
+memset(void *d, int c, size_t n)
+{
+    for (size_t i = 0; i < n; i++)
+        ((uint8 *)d)[i] = (uint8)c;
+    return d;
+}
+static void
+stub_copy(uint8 *d, const uint8 *s, int32 n)
+{
+    for (int32 i = 0; i < n; i++)
+        d[i] = s[i];
+}
+#else
+#define stub_copy(d, s, n) memcpy(d, s, (size_t)(n))
+#endif
+
 /* --------------------------------- stubs ----------------------------------- */
 static int
 io_fails(void)
@@ -194,7 +232,7 @@ disk_put(const uint8 *p, int32 n)
     H4V_CHECK(g_dp >= 0 && g_dp <= g_disk_cap - n, "ghost store capacity (bound of the harness, not of the code)");
     if (!(g_dp >= 0 && g_dp <= g_disk_cap - n))
         return;
-    memcpy(g_disk + g_dp, p, (size_t)n);
+    stub_copy(g_disk + g_dp, p, n);
     g_dp += n;
     if (g_dp > g_disk_n)
         g_disk_n = g_dp;
@@ -356,7 +394,7 @@ Hread(int32 access_id, int32 length, void *data)
     else if (g_rst != 2)
         p[0] = g_disk[g_dp];
 #else
-    memcpy(p, g_disk + g_dp, (size_t)length);
+    stub_copy(p, g_disk + g_dp, length);
 #endif
     if (g_rst == 2) {
         H4V_CHECK(length <= g_rneed, "packet protocol: reader takes no more literals than the count byte announced");
@@ -506,6 +544,7 @@ alloc_info(void)
     H4V_ASSUME(v != NULL);
     H4V_CHECK(sizeof(compinfo_rle_view_t) == sizeof(compinfo_t) && offsetof(compinfo_rle_view_t, rle_info) == RLE_OFF,
               "view has the layout of compinfo_t");
+    g_rlebuf = v->rle_info.buffer;
     return (compinfo_t *)v;
 }
 H4V_DECL_ND(int32);
@@ -553,6 +592,7 @@ havoc_ghosts(void)
     g_disk     = NULL;
     g_watch    = NULL;
     g_out      = NULL;
+    g_rlebuf   = NULL;
     g_disk_cap = g_disk_n = g_dp = 0;
 }
 
@@ -741,3 +781,17 @@ h_crle_roundtrip(void)
     H4V_COVER(w1 > 0 && w2 > w1 && n > w2 && r1 > 0 && r2 > r1 && n > r2, "three non-empty writes and reads");
     H4V_CANARY("crle_roundtrip end");
 }
+#ifdef DBG
+void h_dbg7(void) { havoc_ghosts(); g_io_fail_at = 0xffffffffu; g_wst = 0; g_emit = 0; g_rst = 0; g_dpos = 0; uint8 *store = malloc(16); g_disk = store; g_disk_cap = 16; g_disk_n = g_dp = 0;
+  compinfo_t *info = alloc_info(); info->aid = g_aid; RF(info, rle_state) = RLE_INIT; RF(info, second_byte) = H4V_NIL; RF(info,offset)=0;
+  H4V_ND_BUF(uint8, s, 4, 4); H4V_ND(int32, n); H4V_ASSUME(n>=0 && n<=4);
+  HCIcrle_encode(info, n, s);
+#if DBG >= 2
+  if (RF(info, rle_state) != RLE_INIT) HCIcrle_term(info);
+#endif
+#if DBG >= 3
+  g_dp = 0; RF(info,offset)=0; uint8 *out = malloc(4);
+  HCIcrle_decode(info, n, out);
+#endif
+  H4V_CANARY("x"); }
+#endif
